@@ -10,13 +10,20 @@ use std::borrow::Borrow;
 use std::collections::HashSet;
 use std::hash::Hash;
 use std::mem;
+#[cfg(not(excsn_fibre_verif))]
 use std::sync::{
   atomic::{AtomicBool, Ordering},
   Arc, Weak,
 };
+// Verification builds route the topic channel through the traced primitives (hook H2).
+#[cfg(excsn_fibre_verif)]
+use crate::internal::sync::{AtomicBool, Mutex, Ordering};
+#[cfg(excsn_fibre_verif)]
+use std::sync::{Arc, Weak};
 use std::time::Duration;
 
 use papaya::Equivalent;
+#[cfg(not(excsn_fibre_verif))]
 use parking_lot::Mutex;
 
 // --- Sync Sender ---
